@@ -50,8 +50,11 @@ end Machine
 standard input and everything it has written to standard output so far. -/
 structure World where
   inp : List Nat      -- remaining input bytes (each < 256)
-  out : List Char     -- characters written so far, oldest first
+  outRev : List Char  -- characters written so far, NEWEST first (so that writing is O(1))
   deriving Repr, DecidableEq
+
+/-- Everything written to standard output so far, in order. -/
+def World.output (w : World) : List Char := w.outRev.reverse
 
 /-- Result of executing one instruction. -/
 inductive StepResult where
